@@ -67,12 +67,9 @@ func preludeFor(bv bool) string {
 (declare-fun bitandnot_int (Int Int) Int)
 (declare-fun shl_int (Int Int) Int)
 (declare-fun shr_int (Int Int) Int)
-(assert (forall ((a Int) (b Int)) (! (=> (and (>= a 0) (>= b 0)) (and (<= 0 (bitand_int a b)) (<= (bitand_int a b) a) (<= (bitand_int a b) b))) :pattern ((bitand_int a b)))))
-(assert (forall ((a Int) (b Int)) (! (=> (and (>= a 0) (>= b 0)) (and (<= a (bitor_int a b)) (<= b (bitor_int a b)) (<= (bitor_int a b) (+ a b)))) :pattern ((bitor_int a b)))))
 (declare-sort Bytes 0)
 (declare-fun bytes_of ((Array Int Int) Int Int) Bytes)
 (declare-fun bytes_len (Bytes) Int)
-(assert (forall ((a (Array Int Int)) (o Int) (n Int)) (! (= (bytes_len (bytes_of a o n)) n) :pattern ((bytes_of a o n)))))
 `)
 	sb.WriteString("(define-fun pow2 ((k Int)) Int ")
 	for i := 0; i < 64; i++ {
@@ -329,10 +326,42 @@ func (vc *VC) header() string {
 	return sb.String()
 }
 
-func (vc *VC) incrementalScript(timeoutMs int) string {
+// lazyAxioms: quantified background axioms are included only when the symbol they constrain occurs,
+// so that scripts without them stay in a decidable fragment (refutations then come as `sat` + model).
+var lazyAxioms = []struct{ sym, ax string }{
+	{"bitand_int", "(assert (forall ((a Int) (b Int)) (! (=> (and (>= a 0) (>= b 0)) (and (<= 0 (bitand_int a b)) (<= (bitand_int a b) a) (<= (bitand_int a b) b))) :pattern ((bitand_int a b)))))"},
+	{"bitor_int", "(assert (forall ((a Int) (b Int)) (! (=> (and (>= a 0) (>= b 0)) (and (<= a (bitor_int a b)) (<= b (bitor_int a b)) (<= (bitor_int a b) (+ a b)))) :pattern ((bitor_int a b)))))"},
+	{"bytes_len", "(assert (forall ((a (Array Int Int)) (o Int) (n Int)) (! (= (bytes_len (bytes_of a o n)) n) :pattern ((bytes_of a o n)))))"},
+	{"faddr", "(assert (forall ((a Int) (b Int)) (! (> (faddr a b) 0) :pattern ((faddr a b)))))"},
+	{"gaddr", "(assert (forall ((a Int)) (! (> (gaddr a) 0) :pattern ((gaddr a)))))"},
+}
+
+func (vc *VC) withAxioms(header, body string) string {
 	var sb strings.Builder
-	fmt.Fprintf(&sb, "(set-option :timeout %d)\n", timeoutMs)
-	sb.WriteString(vc.header())
+	sb.WriteString(header)
+	if !vc.bv {
+		for _, la := range lazyAxioms {
+			if strings.Contains(body, "("+la.sym+" ") {
+				sb.WriteString(la.ax + "\n")
+			}
+		}
+	}
+	for _, la := range vc.db.LazySMT {
+		if strings.Contains(body, la[0]) {
+			sb.WriteString(la[1] + "\n")
+		}
+	}
+	sb.WriteString(body)
+	return sb.String()
+}
+
+func (vc *VC) incrementalScript(timeoutMs int) string {
+	hdr := fmt.Sprintf("(set-option :timeout %d)\n", timeoutMs) + vc.header()
+	return vc.withAxioms(hdr, vc.incrementalBody())
+}
+
+func (vc *VC) incrementalBody() string {
+	var sb strings.Builder
 	for _, s := range vc.steps {
 		switch s.Kind {
 		case sDecl:
@@ -358,11 +387,15 @@ func (vc *VC) negGoal(ob *Oblig) string {
 }
 
 func (vc *VC) standaloneScript(ob *Oblig, withModel bool) string {
-	var sb strings.Builder
+	hdr := ""
 	if withModel {
-		sb.WriteString("(set-option :produce-models true)\n")
+		hdr = "(set-option :produce-models true)\n"
 	}
-	sb.WriteString(vc.header())
+	return vc.withAxioms(hdr+vc.header(), vc.standaloneBody(ob, withModel))
+}
+
+func (vc *VC) standaloneBody(ob *Oblig, withModel bool) string {
+	var sb strings.Builder
 	for i, s := range vc.steps {
 		if i >= ob.step {
 			break
